@@ -15,8 +15,8 @@ def plan(quick):
         {"proto": "toy:b,bm,b", "n": 3, "t": 1, "kinds": ["hdr"], "limit": 150 if quick else None},
         {"proto": "doerner-keygen", "n": 2, "t": 1, "kinds": ["fault", "hdr"], "alts": STRUCT, "limit": 250 if quick else None},
         {"proto": "doerner-sign", "n": 2, "t": 1, "kinds": ["fault", "hdr"], "alts": STRUCT, "limit": 300 if quick else None},
-        {"proto": "cmp-sign", "n": 3, "t": 2, "kinds": ["fault", "hdr"], "alts": STRUCT, "limit": 30 if quick else 600},
-        {"proto": "cmp-keygen", "n": 3, "t": 1, "kinds": ["fault", "hdr"], "alts": STRUCT, "limit": 8 if quick else 200},
+        {"proto": "cmp-sign", "n": 3, "t": 2, "kinds": ["fault", "hdr"], "alts": STRUCT, "limit": 30 if quick else 400},
+        {"proto": "cmp-keygen", "n": 3, "t": 1, "kinds": ["fault", "hdr"], "alts": STRUCT, "limit": 8 if quick else 120},
     ]
     # the same handlers with a real worker pool: proofs are verified on worker goroutines, where the handler's recover
     # cannot reach - one case per (message slot, field name) with the field null / absent / empty
@@ -52,9 +52,9 @@ def plan(quick):
     if not quick:
         p += [
             {"proto": "cmp-refresh", "n": 3, "t": 1, "kinds": ["fault", "hdr"], "alts": STRUCT, "limit": 120},
-            {"proto": "cmp-presign", "n": 3, "t": 2, "kinds": ["fault", "hdr"], "alts": STRUCT, "limit": 400},
+            {"proto": "cmp-presign", "n": 3, "t": 2, "kinds": ["fault", "hdr"], "alts": STRUCT, "limit": 250},
             {"proto": "cmp-presign-online", "n": 3, "t": 2, "kinds": ["fault", "hdr"], "alts": STRUCT, "limit": 100},
-            {"proto": "taproot-keygen", "n": 4, "t": 2, "kinds": ["fault", "hdr"], "alts": STRUCT, "limit": 1500},
+            {"proto": "taproot-keygen", "n": 4, "t": 2, "kinds": ["fault", "hdr"], "alts": STRUCT, "limit": 1000},
             {"proto": "doerner-refresh", "n": 2, "t": 1, "kinds": ["fault", "hdr"], "alts": STRUCT},
         ]
     return p
